@@ -102,6 +102,9 @@ pub struct Ctx {
     wall_cap_s: f64,
 }
 
+/// case groups currently inside `par_sweep` (label#index), for the watchdog's message
+pub static IN_FLIGHT: Mutex<std::collections::BTreeSet<String>> = Mutex::new(std::collections::BTreeSet::new());
+
 const KEEP_PER_SIG: usize = 3;
 const MAX_SAMPLES: usize = 8;
 
@@ -140,6 +143,30 @@ impl Ctx {
                 Tier::Quick => 50.0,
                 Tier::Thorough => 1500.0,
             });
+        // Watchdog: a subject call that never returns (a seeded or genuine non-termination) must not
+        // hang the check for ever. Past the hard cap the run is abandoned as a machinery error (exit
+        // 2, never a verdict) that names the case groups still in flight.
+        if replay_file.is_none() {
+            let hard_cap_s = std::env::var("VERIF_HARD_CAP_S")
+                .ok()
+                .and_then(|s| s.parse::<f64>().ok())
+                .unwrap_or(wall_cap_s * 4.0 + 120.0);
+            let p = prop.to_string();
+            std::thread::spawn(move || {
+                let t0 = Instant::now();
+                loop {
+                    std::thread::sleep(std::time::Duration::from_secs(2));
+                    if t0.elapsed().as_secs_f64() > hard_cap_s {
+                        let inflight: Vec<String> = IN_FLIGHT.lock().map(|g| g.iter().take(8).cloned().collect()).unwrap_or_default();
+                        println!(
+                            "MACHINERY-ERROR property={} hard cap of {:.0} s exceeded: a case did not return (case groups in flight: {:?}); no verdict",
+                            p, hard_cap_s, inflight
+                        );
+                        std::process::exit(2);
+                    }
+                }
+            });
+        }
         // panics of the subject are caught by the checks; keep the default hook quiet so that
         // millions of expected panics (documented panics) do not flood stderr
         std::panic::set_hook(Box::new(|_| {}));
